@@ -304,7 +304,7 @@ func main() {
 	runCase(run, "fixed/many-empty", "s", -1, 6, nil, []int{4096}, append(many, mkPay(r, 5, false)))
 	runCase(run, "fixed/eleven-empty", "s", 256, 6, nil, []int{1}, append(many[:11:11], mkPay(r, 5, false)))
 
-	n := run.Scale(700, 6000)
+	n := run.Scale(700, 2500)
 	for i := 0; i < n; i++ {
 		thr := hx.Pick(r, thresholds)
 		if r.Chance(1, 6) {
@@ -357,7 +357,7 @@ func main() {
 		runCase(run, class, dir, thr, level, secret, hx.Pick(r, chunkPatterns), ps)
 	}
 	// encryption switched on in mid-stream, chunk boundaries free to straddle the switch
-	for i := 0; i < run.Scale(150, 2000); i++ {
+	for i := 0; i < run.Scale(150, 800); i++ {
 		thr := hx.Pick(r, []int{-1, 0, 1, 64, 256})
 		mkN := func(n int) []pay {
 			ps := make([]pay, n)
@@ -370,12 +370,12 @@ func main() {
 			hx.Pick(r, chunkPatterns), mkN(r.Intn(4)), mkN(1+r.Intn(4)))
 	}
 	// independent encoders running at the same time (shared buffer pools must not leak between them)
-	for i := 0; i < run.Scale(4, 60); i++ {
+	for i := 0; i < run.Scale(4, 20); i++ {
 		runConcurrent(run, r, 6)
 	}
 	// large frames around the 2^21-1 cap (few: they are expensive)
 	big := []int{1<<21 - 1, 1<<21 - 2, 1<<21 - 4, 1 << 20, 1<<21 - 1 - 3}
-	for i := 0; i < run.Scale(4, 24); i++ {
+	for i := 0; i < run.Scale(4, 12); i++ {
 		sz := hx.Pick(r, big)
 		thr := hx.Pick(r, []int{-1, 256, 1 << 20, 1<<21 - 1})
 		var secret []byte
